@@ -493,8 +493,14 @@ func checkWorkerClosures(c *Ctx, r *Run) {
 				found := false
 				for _, fn := range ri.consumers(bc) {
 					for _, g := range liftedGuards(fn, 0) {
-						if (strings.Contains(g.decider, "== nil") || strings.Contains(g.decider, "!= nil") || g.decider == "load") && containsField(g.fields, "body."+f.Name()) && guardCoversAccepts(g) {
-							found = true
+						if !(guardCoversAccepts(g) || chainCovers(g)) {
+							continue
+						}
+						// the field itself is compared with nil (not the error of a call it is passed to)
+						for _, v := range nilComparisons(g) {
+							if strings.HasSuffix(path(v), "."+f.Name()) && containsField(paramFields(g.fn, v), "body."+f.Name()) {
+								found = true
+							}
 						}
 					}
 				}
